@@ -16,3 +16,4 @@ open Pcore.Dispatch
 #print axioms C16_new_outside
 #print axioms Alpha.C16_newm
 #print axioms Alpha.C16_ctor_no_fault
+#print axioms Alpha.C16_new_struct
